@@ -145,6 +145,16 @@ func runC03(c *core.Ctx) {
 		setCase(c, "int-huge", u, func(a, b int) bool { return a < b }, func(v int) string { return fmt.Sprint(v) })
 		return
 	}
+	if c.Index%50 == 27 {
+		// sets of 90..300 members: room for streaks of 64..256 removals
+		n := c.R.Range(90, 300)
+		u := make([]int, n)
+		for i := range u {
+			u[i] = i*5 - 100
+		}
+		setCase(c, "int-large", u, func(a, b int) bool { return a < b }, func(v int) string { return fmt.Sprint(v) })
+		return
+	}
 	if c.Index%20 == 18 {
 		// float members: +0.0 and -0.0 are == and therefore ONE member
 		u := []float64{0, math.Copysign(0, -1), 1.5, -1.5, math.Inf(1), 2}[:c.R.Range(2, 6)]
@@ -626,6 +636,47 @@ func setCase[T comparable](c *core.Ctx, tname string, univ []T, less func(a, b T
 				return nil
 			}
 			c.Count("counted_change_storms", 1)
+		}
+		// every observer, then ONE new member, then exactly K successful Removes of K other
+		// members with no observation in between (K around 64, 128, 256), then every observer:
+		// whatever tidies up after so many removals must not lose the member that came last
+		if len(o.m) > 70 && len(o.m) < len(univ) && r.Chance(3, 4) {
+			if !check(o, "before-removal-streak") {
+				return nil
+			}
+			ks := []int{63, 64, 65, 66, 127, 128, 129, 255, 256, 257}
+			k := ks[r.Intn(len(ks))]
+			for k >= len(o.m) {
+				k = ks[r.Intn(4)]
+			}
+			var w T
+			for _, x := range univ {
+				if !o.m[x] {
+					w = x
+					break
+				}
+			}
+			o.s.Add(w)
+			o.m[w] = true
+			done := 0
+			for _, x := range univ {
+				if done == k {
+					break
+				}
+				if o.m[x] && x != w {
+					if !o.s.Remove(x) {
+						fail("Remove:return["+impl+"]", fmt.Sprintf("%s.Remove(%v) of a member returned false (removal %d of a streak)", name, x, done+1))
+						return nil
+					}
+					delete(o.m, x)
+					done++
+				}
+			}
+			hist = append(hist, fmt.Sprintf("%s: Add(%v) of a new member, then %d successful Removes of other members without an observation", name, w, k))
+			if !check(o, "removal-streak") {
+				return nil
+			}
+			c.Count("counted_removal_streaks_after_a_new_member", 1)
 		}
 		for _, pc := range postChecks {
 			if !pc() {
